@@ -213,3 +213,15 @@ PROPS["C12"] = {
         {"name": "C12.hostile", "test": "TestVerifC12Hostile", "shards": 16},
     ],
 }
+
+PROPS["C13"] = {
+    "claimed": False,
+    "level": "fault_enumeration",
+    "level_text": "TODO",
+    "level_note": "TODO",
+    "technique": "TODO",
+    "rule": "TODO",
+    "monitors": [
+        {"name": "C13.leaks", "test": "TestVerifC13Leaks", "shards": 16},
+    ],
+}
